@@ -6,6 +6,24 @@ let () = iter_lines (fun line ->
       let r = smtp (nat_of_int (int_of_string n)) (b = "1") (bytes_of_hex s) in
       let rc = string_of_bytes r.r_rcpts in
       (if rc = "" then "-" else rc) ^ " " ^ (match r.r_verdict with VK -> "K" | VZ -> "Z" | VD -> "D") ^ " " ^ b01 r.r_dup
+    | ["slot"; keep; evs] ->
+        (* one delivery slot of spawn.c as a concurrent system (Remote/SpawnSlot.v): events c | w<hex byte> | x | e<wstat> | s | r<n>
+           -> "REJECT" | "<wstat>:<texthex>:<honest 1|0>,..." | "-" (accepted, no report) ; then "|" and what rspawn's report() relays for each *)
+        let ev s = match s.[0] with
+          | 'c' -> ECmd | 'x' -> EChildClose | 's' -> ESigchld
+          | 'w' -> EChildWrite (n_of_int (int_of_string ("0x" ^ String.sub s 1 (String.length s - 1))))
+          | 'e' -> EChildExit (n_of_int (int_of_string (String.sub s 1 (String.length s - 1))))
+          | 'r' -> ERead (nat_of_int (int_of_string (String.sub s 1 (String.length s - 1))))
+          | _ -> failwith "ev" in
+        (match run (keep = "1") init (List.map ev (String.split_on_char ',' evs)) with
+         | None -> "REJECT"
+         | Some (_, outs) ->
+             if outs = [] then "-" else
+             String.concat "," (List.map (fun r -> string_of_int (int_of_n r.r_wstat) ^ ":" ^ hex_of_bytes r.r_text ^ ":" ^ b01 (honestb r)) outs)
+             ^ " | " ^ String.concat "," (List.map (fun r ->
+                 let w = int_of_n r.r_wstat in
+                 let crashed = (w land 127) <> 0 in
+                 hex_of_bytes (rspawn_report crashed (n_of_int ((w lsr 8) land 255)) r.r_text)) outs))
     | ["rep"; c; e; o] -> hex_of_bytes (rspawn_report (c = "1") (n_of_int (int_of_string e)) (bytes_of_hex o))
     | _ -> "?" in
   print_string out; print_char '\n')
